@@ -444,8 +444,10 @@ func isAccountDeclared(accountName string, declared map[string]bool) bool {
 	if declared[accountName] {
 		return true
 	}
-	for declaredAccount := range declared {
-		if strings.HasPrefix(accountName, declaredAccount+":") {
+	// below a declared account: one look-up per ancestor of the name, not one
+	// comparison per declared account
+	for i := len(accountName) - 1; i > 0; i-- {
+		if accountName[i] == ':' && declared[accountName[:i]] {
 			return true
 		}
 	}
